@@ -310,6 +310,16 @@ class Harness:
                 raise Violation('execute_systems(throw_error=True) on a complete model did not raise',
                                 expected='ModelCompleteError', observed='no exception')
             if kind == 'xs_throw':
+                # asked to raise with a flag that is true without being the object True (the outcome of a numpy
+                # comparison, a count, a non-empty string)
+                import numpy as _np
+                for flag in (1, _np.bool_(True), _np.array([3])[0] > 2, 'yes'):
+                    try:
+                        m.systems.execute_systems(throw_error=flag)
+                    except Core.ModelCompleteError:
+                        continue
+                    raise Violation(f'execute_systems(throw_error={flag!r}) on a complete model did not raise',
+                                    expected='ModelCompleteError', observed='no exception')
                 # the same request from other calling contexts: inside a generator-driven loop and through map() -
                 # the documented error arrives there as well (it is not swallowed as "end of iteration")
                 def driver():
